@@ -17,9 +17,11 @@ class C30(Spec):
         "C30.expire_removes_whole_groups_partial",
         "C30.expire_removes_whole_groups_full_false",
         "C30.expire_decodable_header_regression",
+        "C30.encoded_bound_needs_limit",
+        "C30.expire_truncated_group_kept",
     )
-    partial = ("C30.expire_removes_whole_groups_partial",)
-    refuted = ("C30.expire_removes_whole_groups_full_false",)
+    partial = ("C30.expire_removes_whole_groups_partial", "C30.encoded_le_maxBlockSize", "C30.expire_removes_whole_groups")
+    refuted = ("C30.expire_removes_whole_groups_full_false", "C30.encoded_bound_needs_limit", "C30.expire_truncated_group_kept")
     level_text = (
         "Lean theorems, for every configuration, height, prefilled block and pool list, about the model of "
         "BaseClient.AddTxsToBlock (count <= per-height limit; accumulated Size <= MaxBlockSize-100000 and encoded block "
@@ -35,6 +37,10 @@ class C30(Spec):
         "C31's subject. GetTxGroup/Size/IsExpire inputs are described by the harness through the repo's own functions. "
         "No finding remains after repairs c2f0f61/879d416: the ground empty-decoding and one-garbage-tx-decoding group hashes are rebuilt in every run and must be removed; a forged 32-byte Header that passes isPackedGroupOf is run differentially only (as a real hash it needs ~2^48 trials, not exhibited).")
     assumptions = (
+        "configuration: maxTxNumber <= 20000 at every height (stock configs <= 10000) - needed for the encoded-size clause "
+        "(encoded_le_maxBlockSize; encoded_bound_needs_limit refutes it for maxTxNumber = 100000, replayed on the code)",
+        "CheckTxExpire is given a well-formed expanded list (singles and whole groups, as AddTxsToBlock produces); a truncated "
+        "trailing group is kept unchecked (expire_truncated_group_kept, replayed differentially) - no caller in /repo passes one",
         "Transaction.Size() and GetTxGroup() are taken as given inputs (described per transaction by the harness)",
         "the blacklist core check is abstracted to a per-transaction flag; only the fork gate is modelled",
         "proto framing of Block.txs (1 tag byte + length varint) modelled by framed; per-tx Size < 2^28 follows from the bound",
